@@ -99,7 +99,7 @@ fn program<T: Elem>(rng: &mut Rng, pages: usize, max_ops: usize, tag_heavy: bool
     }
     let nops = rng.range(1, max_ops);
     for _ in 0..nops {
-        script.push(*rng.pick(if tag_heavy { &b"wwwwrrrcccwrc"[..] } else { &b"wwwwrrccccfwrc"[..] }));
+        script.push(*rng.pick(if tag_heavy { &b"wwwwrrrcccwrcW"[..] } else { &b"wwwwrrccccfwrcWW"[..] }));
     }
     if rng.chance(1, 8) {
         script.push(*rng.pick(b"oC"));
@@ -177,6 +177,54 @@ fn program<T: Elem>(rng: &mut Rng, pages: usize, max_ops: usize, tag_heavy: bool
                     Err(_) => {
                         obs.push("refused".into());
                         dead = true;
+                    }
+                }
+            }
+            b'W' => {
+                // A write window held across a consume (what two threads do): acquire and fill the
+                // window, let the reader consume, then commit. For a correct ring this is the same
+                // as "consume, then write", which is what the model is asked.
+                let mut wb = w.write_buf().unwrap();
+                let len = wb.len();
+                let k = match rng.below(4) {
+                    0 => len,
+                    _ => len.min(rng.range(1, 12)),
+                };
+                for i in 0..k {
+                    wb.slice()[i] = T::from_nat(counter.wrapping_add(i as u128) & mask(T::BITS));
+                }
+                let (rb, _) = r.read_buf().unwrap();
+                let rlen = rb.len();
+                let m = match rng.below(3) {
+                    0 => rlen,
+                    _ => rng.range(0, rlen),
+                };
+                req += &format!(" ; c {m}");
+                match quiet(move || rb.consume(m)) {
+                    Ok(()) => obs.push("ok".into()),
+                    Err(_) => {
+                        obs.push("refused".into());
+                        dead = true;
+                    }
+                }
+                let mut tags = Vec::new();
+                let mut tagreq = String::new();
+                if k > 0 && rng.chance(1, 2) {
+                    let pos = rng.below(k);
+                    let key = rng.below(4);
+                    let val = rng.below(1000);
+                    tags.push(Tag::new(pos, format!("k{key}"), TagValue::U64(val as u64)));
+                    tagreq = format!(" {pos} {key} {val}");
+                }
+                if !dead {
+                    req += &format!(" ; w {} {} {} {}{}", k, counter & mask(T::BITS), k, tags.len(), tagreq);
+                    counter = counter.wrapping_add(k as u128);
+                    match quiet(move || wb.produce(k, &tags)) {
+                        Ok(()) => obs.push("ok".into()),
+                        Err(_) => {
+                            obs.push("refused".into());
+                            dead = true;
+                        }
                     }
                 }
             }
